@@ -130,8 +130,8 @@ class LexModel:
                 return self._compile_rules()
             args = [self._ev(a, env, where) for a in node.args]
             kw = {k.arg: self._ev(k.value, env, where) for k in node.keywords}
-            if fn in ("e", "re.escape"):
-                return re.escape(args[0])
+            if fn in ("e", "re.escape") or (isinstance(node.func, ast.Name) and env.get(node.func.id) is re.escape):
+                return re.escape(args[0])  # (whatever the local alias of re.escape is called)
             if fn == "c":
                 flags = env.get("__c_flags__", re.M | re.S)
                 return Pat(args[0], flags, "inline")
@@ -249,6 +249,15 @@ class LexModel:
                 r = self._exec(s, env, where)
                 if r is not None:
                     return r
+            return None
+        if isinstance(st, ast.For) and not st.orelse:
+            # a loop over an evaluable sequence (the comprehension it could have been written as)
+            for item in list(self._ev(st.iter, env, where)):
+                self._bind(st.target, item, env)
+                for s in st.body:
+                    r = self._exec(s, env, where)
+                    if r is not None:
+                        return r
             return None
         if isinstance(st, ast.Return):
             return (self._ev(st.value, env, where),) if st.value is not None else (None,)
